@@ -359,6 +359,16 @@ def run_main(pid, tier, seed, replay=None):
     if replay:
         payload = json.load(open(replay))
         d = vk.workdir(f"replay_{pid}_{os.getpid()}")
+        if payload.get("history", {}).get("job_args"):
+            hh = payload["history"]
+            vk.run_harness(hh["job_args"] + ["--out", f"{d}/r"])
+            viols, _, _, _ = vk.run_trace(hh["module"], f"{d}/r.ndjson")
+            shutil.rmtree(d, ignore_errors=True)
+            if any(v["prop"] == pid for v in viols):
+                print(f"VIOLATION property={pid} replay={replay}")
+                return 1
+            vk.log("replay: no violation (multi-threaded runs are not deterministic: absence on one re-run proves nothing)")
+            return 0
         if payload.get("history", {}).get("label") == "sched":
             json.dump(payload["history"]["line"], open(f"{d}/line.json", "w"))
             vk.run_harness(["nodeids-replay", "--file", f"{d}/line.json", "--out", f"{d}/r"])
@@ -419,11 +429,15 @@ def run_main(pid, tier, seed, replay=None):
             first += tr["count"] * tr.get("hist_per_count", 1) + 1
     for x in P.get("extra_jobs", {}).get(tier, []):
         jobs.append(dict(name=x["name"], profile=x["name"], threads=0, kind=x.get("kind"), module=x.get("module"), heap=x.get("heap", "3g"),
-                         args=x["args"] + ["--seed", str(seed)] + (["--thorough"] if tier == "thorough" else [])))
+                         args=[a for a in x["args"] if a != "--salt" and not (x["args"][max(0, x["args"].index(a) - 1)] == "--salt")]
+                         + ["--seed", str(seed * 131 + (int(x["args"][x["args"].index("--salt") + 1]) if "--salt" in x["args"] else 0))]
+                         + (["--thorough"] if tier == "thorough" else [])))
     results, d = vk.gen_and_validate(jobs, module=module, parallel=P.get("parallel", 8))
     hists_cache = {}
 
     def hist_of(r, hno):
+        if r["job"].get("kind") in ("txn", "crash"):
+            return dict(label=r["job"]["kind"], indexes=[], ops=[], job_args=r["job"]["args"], module=r["job"]["module"])
         if r["job"].get("kind") == "sched":
             with open(r["prefix"] + ".ndjson") as f:
                 for ln in f:
@@ -446,7 +460,7 @@ def run_main(pid, tier, seed, replay=None):
     # ---- 3. binding self-test on clean traces
     bad_by_trace = []
     for r in results:
-        if r["job"].get("kind") == "sched":
+        if r["job"].get("kind") in ("sched", "txn", "crash"):
             continue
         bad_h = {v["h"] for v in r["viols"]}
         bad_by_trace.append((r["prefix"] + ".ndjson", bad_h))
@@ -468,11 +482,42 @@ def run_main(pid, tier, seed, replay=None):
                 (st["rejected"] if any(v["conj"] == "id_handed_out_twice" for v in vv) else st["missed"]).append("schedule_duplicate_id")
                 (st["rejected"] if dr else st["missed"]).append("schedule_step_removed")
             shutil.rmtree(dd, ignore_errors=True)
+    for r in results:
+        if r["job"].get("kind") in ("txn", "crash"):
+            dd = vk.workdir(f"selftest_txn_{os.getpid()}")
+            evs = [json.loads(ln) for ln in open(r["prefix"] + ".ndjson")]
+            first_h = evs[0]["h"]
+            evs = [e for e in evs if e["h"] == first_h]
+            muts = {}
+            if r["job"]["kind"] == "txn":
+                obs = [i for i, e in enumerate(evs) if e["ev"] == "R.Observe" and e["v"] > 0]
+                if obs:
+                    a = copy.deepcopy(evs); a[obs[0]]["v"] = 99; muts["observe_future_version"] = a
+                    b = copy.deepcopy(evs)
+                    if b[obs[-1]]["st"]["store"]:
+                        b[obs[-1]]["st"]["store"].pop(0); muts["observe_mixture"] = b
+                    two = [i for i in obs if any(j < i and evs[j]["ev"] == "R.Observe" and evs[j]["r"] == evs[i]["r"] and not any(evs[k]["ev"] == "R.BeginCall" and evs[k]["r"] == evs[i]["r"] for k in range(j, i)) for j in obs)]
+                    if two:
+                        c = copy.deepcopy(evs); c[two[0]]["v"] = max(1, c[two[0]]["v"] - 1) if c[two[0]]["v"] > 1 else c[two[0]]["v"] + 1; muts["snapshot_moves"] = c
+            else:
+                rec = [i for i, e in enumerate(evs) if e["ev"] == "C.Recovered" and e["v"] > 0]
+                if rec:
+                    a = copy.deepcopy(evs); a[rec[0]]["v"] = a[rec[0]]["acked"] + 2; muts["recovered_wrong_version"] = a
+                    b = copy.deepcopy(evs)
+                    if b[rec[-1]]["st"]["nodes"]:
+                        b[rec[-1]]["st"]["nodes"].pop(); muts["recovered_mixture"] = b
+            for name, m in muts.items():
+                open(f"{dd}/{name}.ndjson", "w").write("\n".join(json.dumps(e) for e in m) + "\n")
+                vv, _, _, _ = vk.run_trace(r["job"]["module"], f"{dd}/{name}.ndjson")
+                st["applicable"].append(name)
+                (st["rejected"] if any(v["prop"] == pid for v in vv) else st["missed"]).append(name)
+            shutil.rmtree(dd, ignore_errors=True)
+            break
     vk.log(f"[selftest] corruptions applicable={st['applicable']} rejected={st['rejected']} missed={st['missed']}")
 
     # ---- 4. samples and evidence
     samples = []
-    for r in [x for x in results if x["job"].get("kind") != "sched"][:3]:
+    for r in [x for x in results if x["job"].get("kind") not in ("sched", "txn", "crash")][:3]:
         hs = json.load(open(r["prefix"] + ".hist.json"))
         if hs:
             samples.append(summarize_history(hs[min(1, len(hs) - 1)]))
@@ -485,6 +530,10 @@ def run_main(pid, tier, seed, replay=None):
             if e["ev"] == P.get("sample_event", "Build"):
                 samples.append({"trace_event": {k: e[k] for k in e if k not in ("obs", "q")}})
                 break
+    for r in [x for x in results if x["job"].get("kind") in ("txn", "crash")][:1]:
+        with open(r["prefix"] + ".ndjson") as f:
+            evs = [json.loads(ln) for _, ln in zip(range(400), f)]
+        samples.append({"event_sequence": [(e["ev"], e.get("v", e.get("r"))) for e in evs[:40]]})
     distinct = P["distinct"](results)
     coverage = dict(
         states=sum(m["states"] for m in mc_res if not m["sensitivity"]),
@@ -714,6 +763,34 @@ MAIN["C13"] = dict(
              "enumeration, complete for the small configurations, seeded sampling beyond) plus one per distinct forest built in a 2-16 thread rayon pool"),
     also=lambda prop, conj: prop == "C01",
     selftest_as="C01", sample_event="Build",
+)
+
+def mct(tag, overrides=None, timeout=900):
+    return dict(module="Txn.tla", cfg="MC_Txn.cfg", tag=tag, overrides=overrides or {}, expect_violation=False, timeout=timeout)
+
+
+def txn_jobs(n, count, kind, module="TraceTxn.tla"):
+    return [dict(name=f"{kind}_{j}", kind=kind, module=module, heap="4g", args=[kind, "--count", str(count), "--first", str(j * (count + 1)), "--salt", str(j)]) for j in range(n)]
+
+
+MAIN["C08"] = dict(
+    mc=dict(quick=[mct("txn_2readers_3versions"), mc("MC_Store.cfg", "store_txn")],
+            thorough=[mct("txn_3readers_4versions", {"Readers": "{1, 2, 3}", "MaxVersion": "4"}, timeout=2400), mc("MC_Store.cfg", "store_txn")]),
+    traces=dict(quick=[dict(profile="store", jobs=2, count=40, seed_off=21)], thorough=[dict(profile="store", jobs=4, count=400, seed_off=21)]),
+    extra_jobs=dict(quick=txn_jobs(6, 6, "txn"), thorough=txn_jobs(12, 60, "txn")),
+    distinct=lambda results: dict(n=sum(r["stats"].get("observations", 0) for r in results) + sum(r["stats"]["histories"] for r in results),
+                                  rule="one case per snapshot observation made by a reader thread while the writer thread was adding, building, committing or aborting "
+                                       "(real threads, 1-8 readers, builder pools of 1 and 4 threads), plus one per single-threaded commit/abort history"),
+    sample_event="Abort", selftest_as="C08",
+)
+MAIN["C09"] = dict(
+    mc=dict(quick=[mct("txn_crash")], thorough=[mct("txn_crash_3readers", {"Readers": "{1, 2, 3}", "MaxVersion": "4"}, timeout=2400)]),
+    traces=dict(quick=[], thorough=[]),
+    extra_jobs=dict(quick=txn_jobs(6, 2, "crash"), thorough=txn_jobs(12, 6, "crash")),
+    distinct=lambda results: dict(n=sum(r["stats"].get("kill_points", 0) for r in results),
+                                  rule="one case per SIGKILL point of a child process: n-th poll of the cancellation callback over all builds of the history (stride in "
+                                       "quick, all in thorough), every operation boundary, and delays inside every commit"),
+    sample_event="C.Recovered", level="fault_enumeration",
 )
 
 PLANS = {pid: dict(run=run_main) for pid in MAIN}
